@@ -171,6 +171,7 @@ Inductive outv :=
    [require] = cs.Network.HardforkV2.RequireHeight.  Transaction funding, signatures and
    broadcast are taken to succeed (the harness signs honestly and stubs wallet and chain). *)
 Definition form2 (fc : rev) (uhexp height require : N) (s : settings2) : res outv :=
+  if require <=? height then bad else                      (* rpcLoop: RHP2 is disabled after the require height *)
   if negb (s_accepting s) then bad else
   if require <=? rws fc then bad else
   do hc <- validate_formation fc uhexp height s;
@@ -180,6 +181,7 @@ Definition form2 (fc : rev) (uhexp height require : N) (s : settings2) : res out
    [ex] = s.contract.Revision (a contract is locked), [vals] = req.FinalValidProofValues *)
 Definition renew2 (ex : rev) (vals : list N) (rn : rev) (uhexp height require : N) (s : settings2)
   : res outv :=
+  if require <=? height then bad else                      (* rpcLoop *)
   if negb (s_accepting s) then bad else
   if rnum ex =? max64 then bad else                        (* ContractRevisable *)
   if require <=? rws rn then bad else
